@@ -467,6 +467,30 @@ def astronomic(d, case):
     return case
 
 
+def many_candidates_case(d, rules=model.GREGORY):
+    """more than 256 candidates (rankings are then stored as 16-bit arrays and candidate ids leave CPython's small-int cache),
+    of whom five receive votes - two of those with ids above 256 - so that a winner with a high id has a surplus to transfer"""
+    rule = d.choice(list(rules))
+    nc = d.choice([257, 258, 260, 280, 300])
+    ns = d.int(1, 3)
+    high = d.sample(range(257, nc + 1), min(2, nc - 256))
+    low = d.sample(range(1, 257), 5 - len(high))
+    live = d.perm(high + low)
+    ballots = []
+    for _ in range(d.int(5, 8)):
+        k = d.int(1, 5)
+        r = d.sample(live, k)
+        if d.p(60) and high[0] not in r[:1]:
+            r = [high[0]] + [c for c in r if c != high[0]]      # the high-id candidate leads most lines
+        ballots.append([d.int(20, 120), [[c] for c in r]])
+    # all but a handful of the others are withdrawn: a count among 300 continuing candidates takes seconds (the Scottish
+    # tie-break alone is cubic), and ids are not renumbered by withdrawals
+    extra = d.sample([c for c in range(1, nc + 1) if c not in live], d.int(0, 4))
+    keep = set(live) | set(extra)
+    wd = [c for c in range(1, nc + 1) if c not in keep]
+    return dict(ncand=nc, nseats=ns, withdrawn=wd, undeclared=[], tie=None, ballots=ballots, title='T', names=None, rule=rule, options={})
+
+
 def near_tie_case(d):
     """two candidates with equal first preferences receive slightly different numbers of low-valued papers from a narrow
     surplus: their tallies then differ by a few thousandths - strictly ordered in exact arithmetic, equal or not under a
